@@ -169,16 +169,10 @@ func (x *Exec) obligeUnder(st *State, cond *Term, f func()) {
 }
 
 func (x *Exec) frameDutyRangeWrite(st *State, elem types.Type, r, lo, hi *Term, pos token.Pos, what string) {
-	if isFreshSym(r) {
-		return
-	}
 	x.frameDutyRange(st, loc{rng: true, root: elem, r: r, lo: lo, hi: hi}, pos, what)
 }
 
 func (x *Exec) frameDutyRegionWrite(st *State, elem types.Type, r *Term, pos token.Pos, what string) {
-	if isFreshSym(r) {
-		return
-	}
 	x.frameDutyRegion(st, elem, r, pos, what)
 }
 
